@@ -4,12 +4,14 @@ package main
 // missing duties, decided-message and partial-signature count limits).
 
 import (
+	"fmt"
 	"time"
 
 	specqbft "github.com/bloxapp/ssv-spec/qbft"
 	spectypes "github.com/bloxapp/ssv-spec/types"
 	tu "github.com/bloxapp/ssv-spec/types/testingutils"
 
+	"github.com/bloxapp/ssv/network/commons"
 	"github.com/bloxapp/ssv/zz_verif/lib/hx"
 )
 
@@ -125,4 +127,89 @@ func DecidedKit(ks *tu.TestKeySet, height specqbft.Height, round specqbft.Round,
 	}
 	signed.FullData = tu.TestingQBFTFullData
 	return signed
+}
+
+// subsetSeenDecided: a decided (quorum-sized) commit where only a SUBSET of its signers has prior state, every subset
+// pattern in turn; the seen signers are at the same (slot, round), advanced in round, or advanced in slot. Unseen signers
+// listed BEFORE seen ones must not shield the seen ones from the regression / limit checks.
+func subsetSeenDecided(run *hx.Run, r *hx.Rng, idx int) {
+	w := world([]int{4, 7}[idx%2])
+	ks := w.KS
+	id := []byte{1, 2, 3, 4}
+	root := tu.TestingQBFTRootData
+	role := []spectypes.BeaconRole{spectypes.BNRoleAttester, spectypes.BNRoleAggregator}[idx%2]
+	s := uint64(baseSlot + 4)
+	q := int(ks.Threshold)
+	var ids []spectypes.OperatorID
+	start := 1 + (idx/2)%(w.N-q+1)
+	for i := start; i < start+q; i++ {
+		ids = append(ids, spectypes.OperatorID(i))
+	}
+	pattern := (idx / 2) % (1 << uint(hx.Min(q, 5))) // which of the (first five) signers already have state
+	adv := (idx / 3) % 4                           // 0 same slot+round, 1 round 2 of the slot, 2 next slot, 3 mixed
+	c := NewCase(run, w, false, fmt.Sprintf("targeted/subset-seen-decided/p%d/a%d", pattern, adv))
+	now := w.SlotStart(s).Add(5 * time.Second)
+	for bit, op := range ids {
+		if bit >= 5 || pattern&(1<<uint(bit)) == 0 {
+			continue
+		}
+		a := adv
+		if a == 3 {
+			a = bit % 3
+		}
+		switch a {
+		case 0:
+			m := tu.TestingPrepareMessageWithParams(ks.Shares[op], op, 1, specqbft.Height(s), id, root)
+			m.FullData = nil
+			c.ValidateSSV(kitSSV(w, role, m), now, Env{Mode: "n"}, "subset:seen-same-round")
+		case 1:
+			m := tu.TestingRoundChangeMessageWithParams(ks.Shares[op], op, 2, specqbft.Height(s), [32]byte{}, 0, nil)
+			m.FullData = nil
+			c.ValidateSSV(kitSSV(w, role, m), now, Env{Mode: "n"}, "subset:seen-round-advanced")
+		case 2:
+			m := tu.TestingPrepareMessageWithParams(ks.Shares[op], op, 1, specqbft.Height(s+1), id, root)
+			m.FullData = nil
+			c.ValidateSSV(kitSSV(w, role, m), w.SlotStart(s+1).Add(5*time.Second), Env{Mode: "n"}, "subset:seen-slot-advanced")
+			now = w.SlotStart(s + 1).Add(6 * time.Second)
+		}
+	}
+	d := DecidedKit(ks, specqbft.Height(s), 1, ids)
+	c.ValidateSSV(kitSSV(w, role, d), now.Add(time.Millisecond), Env{Mode: "n"}, "subset:decided")
+	// a second decided message with another signer order pattern: the last signers only
+	if len(ids) > 3 {
+		d2 := DecidedKit(ks, specqbft.Height(s), 1, ids)
+		c.ValidateSSV(kitSSV(w, role, d2), now.Add(2*time.Millisecond), Env{Mode: "n"}, "subset:decided-again")
+	}
+}
+
+// topicSweep: one honest message of the subnet-7 validator (and of the main validator) through validateP2PMessage on
+// EVERY advertised topic, with and without the network prefix, plus near-miss names: only the validator's own topic may pass.
+func topicSweep(run *hx.Run, r *hx.Rng) {
+	w := world(4)
+	ks := w.KS
+	s := uint64(baseSlot + 6)
+	at := w.SlotStart(s).Add(5 * time.Second)
+	for _, flav := range []int{vTopic, vMain} {
+		m := tu.TestingPrepareMessageWithParams(ks.Shares[2], 2, 1, specqbft.Height(s), []byte{1, 2, 3, 4}, tu.TestingQBFTRootData)
+		m.FullData = nil
+		enc, _ := m.Encode()
+		msg := ssvOf(w, flav, spectypes.BNRoleAttester, spectypes.SSVConsensusMsgType, enc)
+		data, err := msg.Encode()
+		if err != nil {
+			continue
+		}
+		own := commons.ValidatorTopicID(msg.GetID().GetPubKey())[0]
+		var topics []string
+		for i := 0; i < 128; i++ {
+			topics = append(topics, commons.GetTopicFullName(commons.SubnetTopicID(i)))
+			if flav == vTopic || i%16 == int(r.Intn(16)) {
+				topics = append(topics, commons.SubnetTopicID(i))
+			}
+		}
+		topics = append(topics, "", own+"0", "1"+own, "x"+commons.GetTopicFullName(own), commons.GetTopicFullName(own)+" ", "ssv.v2."+commons.GetTopicFullName(own), "ssv.v2.ssv.v2.1"+own)
+		for _, tp := range topics {
+			c := NewCase(run, w, false, "topic-sweep/"+flavourNames[flav])
+			c.ValidateP2P(data, tp, at, "topic-sweep")
+		}
+	}
 }
